@@ -1,5 +1,5 @@
 \* expected violations (design-level observations about the code as it is)
-CONSTANTS N = 1 Q = 0 NCalls = 3
+CONSTANTS N = 1 Q = 0 NCalls = 3 WithObs = TRUE
 INIT Init
 NEXT Next
 INVARIANTS QueueLenNonNegative
